@@ -38,6 +38,9 @@ CHECKS = {
     "C09": ("model_checking", MC,
             "After every commit of the traversal every stored private key of every member is tested against the public key of the corresponding node of the exported tree (HPKE seal/open as black box); blank nodes must carry no key; committer path keys must be fresh.",
             "Trusted: explorer, reference tree parser, hook verif_private_keys (read-only). Same bounds as C01.", "DESIGN.md 2/C09"),
+    "C10": ("model_checking", "exhaustive enumeration of (seed tree, committer, set of <=3 by-reference proposal atoms out of 17, by-value atom out of 8) cases on forks of real worlds, judged by committer/receiver agreement and a coarse RFC 9420 rule table",
+            "Every such case is executed on real members: proposals are sent and delivered (also in reverse order and with one missing), the committer commits, and every receiver must accept with the same applied / unused proposals and epoch state; a member missing a referenced proposal must refuse and stay unchanged; invalid by-value atoms make the build fail, invalid by-reference atoms are never applied, lone valid atoms are applied.",
+            "Trusted: explorer, hook verif_state. Where the RFC leaves the choice among conflicting proposals to the committer only agreement is demanded. Receive-side rejection of rules an honest library cannot be made to violate is covered only through C03's adversarial committer.", "DESIGN.md 2/C10"),
     "C11": ("model_checking", MC,
             "Three real members race in one epoch; every interleaving (to the depth bound) of commit / commit_detached / clear / apply / apply_detached with any kept secrets / delivery of any candidate commit, with any candidate as the epoch's winner, is executed and judged against a reference machine {epoch, pending} per member, complete-state equality for what must not change, and the epoch ledger for what advances.",
             "Trusted: explorer, hook verif_state. 3 members, depth 4 (quick) / 6 (thorough), public and encrypted handshake.", "DESIGN.md 2/C11"),
